@@ -9,7 +9,7 @@ set -u
 ID=$1
 OUT=/tmp/mut/out-$ID; DST=/verif/seeded/$ID; C=/tmp/confirm
 mkdir -p $DST
-for f in patch.diff demo.cpp run_demo.sh notes.md; do [ -f $OUT/$f ] && cp $OUT/$f $DST/; done
+for f in patch.diff demo.cpp run_demo.sh notes.md; do [ -f $OUT/$f ] && [ ! -f $DST/$f ] && cp $OUT/$f $DST/; done   # files already taken over (e.g. a patch rebased onto a later hook commit) are kept
 cp $OUT/*.h $OUT/*.hpp $DST/ 2>/dev/null
 LOG=$DST/confirm.log; : > $LOG
 git -C $C checkout -q -- . ; git -C $C clean -fdq -e _build
